@@ -102,7 +102,7 @@ func ctxFails(p *chaincfg.Params, times []int64, bits []uint32, hb uint32, ht in
 	}
 	tip := hdrChain(times, bits)
 	c := cctx{p}
-	if want, err := blockchain.VerifCalcNextRequiredDifficulty(tip, time.Unix(ht, 0), c); err == nil && want != hb {
+	if want, err := safeNext(tip, time.Unix(ht, 0), c); err == nil && want != hb {
 		n++
 	}
 	if !(ht > blockchain.CalcPastMedianTime(tip).Unix()) {
@@ -363,6 +363,29 @@ func realCtxParams(tts, ttpb, af int64) string {
 	return fmt.Sprintf("%d %d %d %08x", chain.BlocksPerRetarget(), chain.MinRetargetTimespan(), chain.MaxRetargetTimespan(), bits)
 }
 
+var errPanic = fmt.Errorf("panic")
+
+// safeNext calls the real calcNextRequiredDifficulty; a panic of the real code becomes an error so that
+// generators (which use the real code only to shape inputs) and goroutines survive a broken tree and the
+// disagreement is reported per case.
+func safeNext(last blockchain.HeaderCtx, t time.Time, c blockchain.ChainCtx) (bits uint32, err error) {
+	defer func() {
+		if r := recover(); r != nil {
+			bits, err = 0, errPanic
+		}
+	}()
+	return blockchain.VerifCalcNextRequiredDifficulty(last, t, c)
+}
+
+func safeCtx(header *wire.BlockHeader, node blockchain.HeaderCtx, c blockchain.ChainCtx) (err error) {
+	defer func() {
+		if r := recover(); r != nil {
+			err = errPanic
+		}
+	}()
+	return blockchain.CheckBlockHeaderContext(header, node, blockchain.BFNone, c, true)
+}
+
 func paramsSnapshot(p *chaincfg.Params) string {
 	return paramsLine(p) + fmt.Sprintf(" %p", p.PowLimit)
 }
@@ -370,12 +393,17 @@ func paramsSnapshot(p *chaincfg.Params) string {
 // triple = required bits / context verdict (coarsened) / MTP for header (hb, ht) on top of node
 func triple(p *chaincfg.Params, node blockchain.HeaderCtx, c blockchain.ChainCtx, times []int64, bits []uint32, hb uint32, ht int64) string {
 	req := "assert"
-	if b, err := blockchain.VerifCalcNextRequiredDifficulty(node, time.Unix(ht, 0), c); err == nil {
+	if b, err := safeNext(node, time.Unix(ht, 0), c); err == nil {
 		req = fmt.Sprintf("%08x", b)
+	} else if err == errPanic {
+		req = "panic"
 	}
 	header := &wire.BlockHeader{Version: 0x20000000, Bits: hb, Timestamp: time.Unix(ht, 0)}
-	err := blockchain.CheckBlockHeaderContext(header, node, blockchain.BFNone, c, true)
+	err := safeCtx(header, node, c)
 	v := coarsen(ruleClass(err), ctxFails(p, times, bits, hb, ht, false))
+	if err == errPanic {
+		v = "panic"
+	}
 	return req + "/" + v + "/" + strconv.FormatInt(blockchain.CalcPastMedianTime(node).Unix(), 10)
 }
 
@@ -719,7 +747,7 @@ func generateHard(g *core.Gen) {
 		if r.Chance(1, 3) { // MTP boundary triple
 			newTime = mtp + r.Pick(-1, 0, 1)
 		}
-		want, err := blockchain.VerifCalcNextRequiredDifficulty(hdrChain(times, bits), time.Unix(newTime, 0), cctx{p})
+		want, err := safeNext(hdrChain(times, bits), time.Unix(newTime, 0), cctx{p})
 		hb := want
 		if err != nil || r.Chance(1, 5) {
 			switch r.Intn(4) {
@@ -768,7 +796,7 @@ func generateHard(g *core.Gen) {
 			hs[n-1-j] = fmt.Sprintf("%d:%x", times[j], bb[j])
 		}
 		newTime := times[n-1] + r.Pick(-601, -600, -599, 1, 1201)
-		want, _ := blockchain.VerifCalcNextRequiredDifficulty(hdrChain(times, bb), time.Unix(newTime, 0), cctx{p})
+		want, _ := safeNext(hdrChain(times, bb), time.Unix(newTime, 0), cctx{p})
 		impl := []string{"h", "n"}[i%2]
 		emit(g, "hctx-testnet4", true, fmt.Sprintf("C09 hctx %s 0 %d %s %x %d %s", paramsLine(p), i%2, impl, want, newTime,
 			strings.Join(hs, " ")))
@@ -1109,7 +1137,7 @@ func generateHard(g *core.Gen) {
 			if r.Chance(1, 4) {
 				t = blockchain.CalcPastMedianTime(tip).Unix() + r.Pick(0, 1)
 			}
-			want, err := blockchain.VerifCalcNextRequiredDifficulty(tip, time.Unix(t, 0), cctx{p})
+			want, err := safeNext(tip, time.Unix(t, 0), cctx{p})
 			if err != nil || r.Chance(1, 6) {
 				want = bits[m-1] + uint32(r.Intn(2))
 			}
@@ -1159,7 +1187,7 @@ func generateHard(g *core.Gen) {
 		bb := append(append([]uint32{}, mbits[:nm-depth]...), sb...)
 		red := int64(p.MinDiffReductionTime / time.Second)
 		t := lastSide + r.Pick(red-1, red, red+1, 1, per)
-		want, err := blockchain.VerifCalcNextRequiredDifficulty(hdrChain(bt, bb), time.Unix(t, 0), cctx{p})
+		want, err := safeNext(hdrChain(bt, bb), time.Unix(t, 0), cctx{p})
 		if err != nil || r.Chance(1, 8) {
 			want = sb[len(sb)-1]
 		}
@@ -1215,7 +1243,7 @@ func generateHard(g *core.Gen) {
 			if r.Chance(1, 12) {
 				t = mtp + r.Pick(-1, 0, 1)
 			}
-			want, err := blockchain.VerifCalcNextRequiredDifficulty(tip, time.Unix(t, 0), c)
+			want, err := safeNext(tip, time.Unix(t, 0), c)
 			b := want
 			if err != nil || r.Chance(1, 10) {
 				b = []uint32{want + 1, want - 1, p.PowLimitBits, bits[len(bits)-1], 0x207fffff + 1, 0, 0x20800001, 0x2100ffff}[r.Intn(8)]
